@@ -292,7 +292,7 @@ impl Check for C08C {
         Meta {
             rule: "stage spellings: every expression AST of the C05 families is rendered in its all-unabbreviated and all-abbreviated base spelling and in EVERY spelling one deviation away from each base: each abbreviation toggled at each site (child:: <-> omitted, attribute:: <-> @, /descendant-or-self::node()/ <-> //, self::node() <-> ., parent::node() <-> ..), each numeric predicate [n] <-> [position()=n], redundant parentheses around each sub-expression in turn, white space at each interior token gap in turn, at all gaps at once (space; tab+newline). All spellings of one AST must give the implementation the same result on every document (and the reference value says which side is wrong). Stage grammar: for all ordered pairs of the 14 binary operators and operand triples from {0,1,2,3,true(),false(),'a','',/r/a,/r/b}, `x op1 y op2 z` must evaluate like the parenthesisation the grammar prescribes (precedence, left associativity); unary minus against every operator; text(), node(), comment(), processing-instruction() at every place a step may begin (start, after / // | ( [ , and operators) against child::T; lexical disambiguation of div, mod, and, or, text, node, comment as element names and of * as name test vs operator. Non-trivial = the implementation returned a value.",
             bounds_quick: "spellings: C05 quick expression set x 3 documents; grammar: operand pool without 3 and ''",
-            bounds_thorough: "spellings: C05 thorough expression set x 8 documents; grammar: full operand pool",
+            bounds_thorough: "spellings: C05 thorough expression set x 10 documents; grammar: full operand pool",
             assumptions: &["white space is inserted only between tokens (never inside //, .., ::, a QName, a number or after $)"],
             unbounded_total: false,
         }
